@@ -226,7 +226,7 @@ class ValGen:
         r = self.r
         if n is None:
             n = r.choice([0, 1, 2, 3, 5, 9])
-        chars = "abéĀ �\U0001F600'\"\\\n\r\x00\x1a\x7f \t%{$"       # % { $: text that looks like a format / template directive
+        chars = "abéĀ �\U0001F600'\"\\\n\r\x00\x1a\x7f \t%{$\x07\x08\x0b\x0c\x1b"       # % { $: text that looks like a format / template directive
         return "".join(r.choice(chars) for _ in range(n)).encode("utf-8")
 
     def some_int(self):
@@ -449,6 +449,13 @@ def gate_matrix():
         out.append(("map", "m", pairs)); out.append(("map", "d", pairs))
         out.append(("map", "tm", [(("str", "s", b"k%d" % j), ("int", "i16", j)) for j in range(n)]))
         out.append(("call", b"decimal", b"Decimal", [("str", "s", b"3.14")] * n))
+    # every control character and every Latin-1 code point on its own, in each string kind (the escape tables of the
+    # protocol-0 text forms are per character)
+    for cp in list(range(0, 33)) + [34, 39, 92, 127] + list(range(128, 256, 5)) + [0x85, 0xa0, 0xad, 0xff, 0x100, 0x2028, 0xffff, 0x10000]:
+        u = chr(cp).encode("utf-8")
+        out += [("str", "s", u), ("str", "z", u)]
+        if cp < 256:
+            out += [("str", "b", bytes([cp])), ("str", "z", bytes([cp]))]
     out += [("class", b"100%", b"%d"), ("class", b"%s", b"a%vb"), ("call", b"%d", b"%s", [("int", "i", 1)]), ("ref", ("str", "s", b"id%d%s")),
             ("ref", ("str", "s", b"100%")), ("struct", [(b"A", b"t%d", ("int", "i", 1))]),
             ("class", b"decimal", b"Decimal"), ("class", b"a\nb", b"C"), ("class", b"m", b"x\ny"), ("class", b"", b""),
